@@ -136,7 +136,11 @@ func (e *Engine) builtin(st *State, name string, args []Val, rt types.Type, in *
 		return e.A.App(name, rt, args[0]), ""
 	case "recover":
 		return &Opaque{Key: "nil", Type: rt}, ""
-	case "append", "copy", "min", "max":
+	case "append":
+		res := e.appOfType(name, rt, args...)
+		st.addEvent(Event{Kind: "append", Fn: "append", Args: args, Res: res, Pos: in.Pos()})
+		return res, ""
+	case "copy", "min", "max":
 		return e.appOfType(name, rt, args...), ""
 	case "print", "println", "delete", "close":
 		return nil, ""
@@ -188,9 +192,125 @@ func (e *Engine) model(st *State, name string, fn *ssa.Function, args []Val, rt 
 		return one(&ErrVal{IsNil: false, Desc: d})
 	case "fmt.Sprintf":
 		el, _ := e.sliceElems(st, args[1])
+		if sf, ok := sprintfForm(args[0], el); ok {
+			return one(sf)
+		}
 		return one(&Opaque{Key: "sprintf(" + valKey(args[0]) + "," + valKey(Tuple(el)) + ")", Type: rt, Fn: "sprintf", Args: append([]Val{args[0]}, el...)})
 	case "(*sync.Once).Do":
 		return one(nil)
+	case "(encoding/binary.littleEndian).Uint16", "(encoding/binary.littleEndian).Uint32", "(encoding/binary.littleEndian).Uint64",
+		"(encoding/binary.bigEndian).Uint16", "(encoding/binary.bigEndian).Uint32", "(encoding/binary.bigEndian).Uint64":
+		// ByteOrder.UintN(b) = the first N/8 bytes of b in that order
+		sl, ok := args[1].(*SliceVal)
+		if !ok {
+			return nil, false
+		}
+		n := map[string]int{"16": 2, "32": 4, "64": 8}[name[len(name)-2:]]
+		little := strings.Contains(name, "littleEndian")
+		bv := &BV{Bits: make([]Bit, 8*n)}
+		for k := 0; k < n; k++ {
+			el, okE := e.sliceElem(st, sl, formInt(int64(k))).(*Form)
+			if !okE {
+				return nil, false
+			}
+			eb := e.toBV(el, 8, false)
+			pos := 8 * k
+			if !little {
+				pos = 8 * (n - 1 - k)
+			}
+			copy(bv.Bits[pos:pos+8], eb.Bits)
+		}
+		st.addEvent(Event{Kind: "bounds", Fn: "binary.Uint", Args: []Val{formInt(int64(n)), sl.Len}, Pos: in.Pos()})
+		return one(e.fromBV(bv, rt))
+	case "bytes.HasPrefix":
+		sl, ok1 := args[0].(*SliceVal)
+		pf, ok2 := args[1].(*SliceVal)
+		if !ok1 || !ok2 {
+			return nil, false
+		}
+		if n, isC := pf.Len.ConstInt(); isC && n <= 64 {
+			// len(s) >= n && s[i] == prefix[i] for all i: represented as one condition atom carrying both slices
+			return one(&BoolVal{Op: "prefix", A: sl, B: pf})
+		}
+		return nil, false
+	case "io.LimitReader":
+		if rd, ok := args[0].(*ReaderVal); ok {
+			n, _ := args[1].(*Form)
+			if n != nil {
+				return one(&LimitedVal{R: rd, N: n})
+			}
+		}
+		return nil, false
+	case "(*bytes.Buffer).ReadFrom", "io.ReadAll", "io/ioutil.ReadAll":
+		// reading a LimitReader(r, n) to its end consumes exactly n bytes when they are present
+		var lv *LimitedVal
+		var dst Val
+		if name == "(*bytes.Buffer).ReadFrom" {
+			lv, _ = args[1].(*LimitedVal)
+			dst = args[0]
+		} else {
+			lv, _ = args[0].(*LimitedVal)
+		}
+		if lv == nil {
+			return nil, false
+		}
+		pos := e.streamPos(st, lv.R.S)
+		content := &Opaque{Key: fmt.Sprintf("%s[%s:+%s]", lv.R.S.Name, pos.Key(), lv.N.Key()), Fn: "bytes", Args: []Val{&StrVal{S: lv.R.S.Name}, pos, lv.N}}
+		var outs []Outcome
+		if e.FailReads {
+			bad := st.clone()
+			bad.addEvent(Event{Kind: "readfail", Fn: name, Args: []Val{pos, lv.N}, Pos: in.Pos()})
+			short := e.A.App("short", types.Typ[types.Int64], pos)
+			bad.conds = append(bad.conds, &BoolVal{Op: "<", A: short, B: lv.N})
+			if name == "(*bytes.Buffer).ReadFrom" {
+				outs = append(outs, valueOutcome(bad, Tuple{short, &ErrVal{IsNil: true}}))
+			} else {
+				outs = append(outs, valueOutcome(bad, Tuple{&SliceVal{Base: &Opaque{Key: "short-read"}, Lo: formInt(0), Len: short}, &ErrVal{IsNil: true}}))
+			}
+		}
+		st.pos[lv.R.S] = pos.Add(lv.N)
+		if name == "(*bytes.Buffer).ReadFrom" {
+			st.addEvent(Event{Kind: "copyn", Fn: name, Recv: dst, Args: []Val{content, pos, lv.N}, Pos: in.Pos()})
+			outs = append([]Outcome{valueOutcome(st, Tuple{lv.N, &ErrVal{IsNil: true}})}, outs...)
+		} else {
+			res := &SliceVal{Base: content, Lo: formInt(0), Len: lv.N, Elem: types.Typ[types.Uint8]}
+			st.addEvent(Event{Kind: "readinto", Fn: name, Recv: res, Args: []Val{content, pos, lv.N}, Pos: in.Pos()})
+			outs = append([]Outcome{valueOutcome(st, Tuple{res, &ErrVal{IsNil: true}})}, outs...)
+		}
+		return outs, true
+	case "(*image.RGBA).Bounds", "(*image.NRGBA).Bounds", "(*image.RGBA64).Bounds", "(*image.NRGBA64).Bounds", "(*image.YCbCr).Bounds", "(*image.Gray).Bounds":
+		// Bounds() returns the Rect field (image package definition)
+		if v, ok := e.imageField(st, args[0], "Rect", fn.Signature.Recv().Type()); ok {
+			return one(v)
+		}
+		return nil, false
+	case "(*image.RGBA).PixOffset", "(*image.NRGBA).PixOffset", "(*image.RGBA64).PixOffset", "(*image.NRGBA64).PixOffset":
+		// PixOffset(x, y) = (y − Rect.Min.Y)·Stride + (x − Rect.Min.X)·bytesPerPixel (image package definition)
+		bpp := int64(4)
+		if strings.Contains(name, "64") {
+			bpp = 8
+		}
+		x, ok3 := args[1].(*Form)
+		y, ok4 := args[2].(*Form)
+		if !ok3 || !ok4 {
+			return nil, false
+		}
+		res, okR := e.pixOffsetForm(st, args[0], fn.Signature.Recv().Type(), bpp, x, y)
+		if !okR {
+			return nil, false
+		}
+		st.addEvent(Event{Kind: "call", Fn: shortFn(fn), Args: args, Res: res, Pos: in.Pos()})
+		return one(res)
+	case "strconv.Itoa", "strconv.FormatInt", "strconv.FormatUint":
+		if f, ok := args[0].(*Form); ok {
+			if name != "strconv.Itoa" {
+				if b, ok := args[1].(*Form); !ok || !b.Equal(formInt(10)) {
+					return nil, false
+				}
+			}
+			return one(&StrForm{Parts: []Val{&DecVal{X: f}}})
+		}
+		return nil, false
 	case "(*strings.Builder).WriteByte":
 		st.addEvent(Event{Kind: "call", Fn: "(*strings.Builder).WriteByte", Args: args, Pos: in.Pos()})
 		return one(&ErrVal{IsNil: true})
@@ -437,52 +557,135 @@ func (e *Engine) globalInitVal(g *ssa.Global) (Val, bool) {
 // ---------------------------------------------------------------------------
 // loop summaries
 
-// summariseLoop handles a loop whose trip count is symbolic but whose body
-// only consumes a constant number of stream bytes per iteration:
+// summariseLoop replaces a counting loop by ONE GENERIC ITERATION.
 //
-//	for i := init; i < N; i++ { _, err := r.ReadByte(); if err != nil { return err } }
+// Recognised shape: a header whose phis are
+//   - one main counter  i = [init, i ± 1]  (any loop-invariant step when no
+//     stream bytes are consumed) tested by  i <op> limit  (<, <=, >, >=, !=),
+//   - any number of secondary affine counters  p = [p0, p ± c]  with a
+//     loop-invariant c (running offsets), and
+//   - accumulators  s = [s0, append(s, x...)]  (ordered concatenation).
 //
-// The loop is replaced by  pos += c*(N - init)  and execution continues at the
-// loop exit. Anything else is reported as not summarised.
+// The body is interpreted once with the counter bound to a fresh symbol k
+// (secondary counters to p0 + t·c with t the iteration number). It may
+// consume stream bytes (a loop-invariant amount per iteration: the position
+// becomes start + t·amount and, after the loop, start + trips·amount), call
+// functions, store to elements indexed by the iteration, and exit through
+// return/panic. It must not modify variables that outlive the iteration.
+// The facts are recorded as loop-summary / loop-store / loop-call /
+// loop-append events; anything else is reported as not summarisable.
 func (e *Engine) summariseLoop(st *State, fr *frame, b *ssa.BasicBlock, ifi *ssa.If, c *BoolVal, depth int) ([]Outcome, bool) {
 	fail := func(why string) ([]Outcome, bool) { e.loopWhy = why; return nil, false }
 	e.loopWhy = ""
-	// recognise the counter
 	var iv *IndVar
-	nphi := 0
+	var secondary []*IndVar
+	type accPhi struct {
+		phi *ssa.Phi
+		app *ssa.Call
+	}
+	var accs []accPhi
 	for _, in := range b.Instrs {
 		phi, ok := in.(*ssa.Phi)
 		if !ok {
 			break
 		}
-		nphi++
 		if cand := findIndVar(phi); cand != nil && ssa.Value(cand.Cond) == ifi.Cond {
+			if iv != nil {
+				return fail("two counters are tested by the loop condition")
+			}
 			iv = cand
+			continue
+		}
+		if aff := affinePhi(phi); aff != nil {
+			secondary = append(secondary, aff)
+			continue
+		}
+		// accumulator: s = [s0, append(s, ...)]
+		isAcc := false
+		if len(phi.Edges) == 2 {
+			for _, ed := range phi.Edges {
+				if call, ok := ed.(*ssa.Call); ok {
+					if bi, ok := call.Call.Value.(*ssa.Builtin); ok && bi.Name() == "append" && len(call.Call.Args) > 0 && call.Call.Args[0] == ssa.Value(phi) {
+						accs = append(accs, accPhi{phi, call})
+						isAcc = true
+					}
+				}
+			}
+		}
+		if !isAcc {
+			return fail(fmt.Sprintf("the loop carries the variable %s from one iteration to the next in a way that is neither a counter, a running offset nor an append-accumulator", phi.Comment))
 		}
 	}
-	if iv == nil || nphi != 1 || iv.Op.String() != "<" {
-		return fail(fmt.Sprintf("the loop carries %d variables besides a simple `i < N` counter (a running offset or accumulator makes iterations depend on each other)", nphi-1))
+	if iv == nil {
+		return fail("the loop condition does not test a counter of the form i = i ± step")
 	}
 	stepV, okS := e.val(st, fr, iv.Step).(*Form)
 	if !okS {
 		return fail("non-numeric step")
 	}
-	unitStep := stepV.Equal(formInt(1))
+	if iv.Down {
+		stepV = stepV.Neg()
+	}
+	sc, stepConst := stepV.ConstInt()
+	unitStep := stepConst && (sc == 1 || sc == -1)
 	initV, ok1 := fr.env[iv.Phi].(*Form) // value on first arrival = init
 	limit, ok2 := e.val(st, fr, iv.Limit).(*Form)
 	if !ok1 || !ok2 {
 		return fail("non-numeric loop bounds")
 	}
-	first := initV // first counter value seen by the body
+	first := initV // first counter value tested / seen by the body
 	if iv.PreInc {
 		first = initV.Add(stepV)
 	}
-	// interpret one generic iteration; when the body consumes stream bytes the
-	// interpretation is repeated with the stream positioned at
-	// start + (k − first)·consumption so that byte provenance is that of
-	// iteration k, not of the first iteration
+	// trip count (for unit steps); direction must match the comparison
+	var trips *Form
+	up := stepConst && sc > 0
+	switch {
+	case !unitStep:
+		trips = nil
+	case up && iv.Op.String() == "<", up && iv.Op.String() == "!=":
+		trips = limit.Sub(first)
+	case up && iv.Op.String() == "<=":
+		trips = limit.Sub(first).Add(formInt(1))
+	case !up && iv.Op.String() == ">", !up && iv.Op.String() == "!=":
+		trips = first.Sub(limit)
+	case !up && iv.Op.String() == ">=":
+		trips = first.Sub(limit).Add(formInt(1))
+	default:
+		return fail("the counter moves away from its bound")
+	}
+	if !unitStep && iv.Op.String() != "<" {
+		return fail("non-unit step with a comparison other than <")
+	}
+
 	e.nextCell++
 	k := e.A.Var(fmt.Sprintf("iter#%d", e.nextCell), iv.Phi.Type())
+	kName, _ := k.SingleAtom()
+	// iteration number t = (k − first)/step (unit steps: (k − first)·step)
+	var tIter *Form
+	if unitStep {
+		tIter = k.Sub(first).Mul(formInt(sc))
+	}
+	// secondary counters at iteration t
+	secVals := map[*ssa.Phi]*Form{}
+	secSteps := map[*ssa.Phi]*Form{}
+	for _, s2 := range secondary {
+		i0, okI := fr.env[s2.Phi].(*Form)
+		st2, okT := e.val(st, fr, s2.Step).(*Form)
+		if !okI || !okT || tIter == nil {
+			return fail(fmt.Sprintf("the running variable %s cannot be expressed as start + iteration·step", s2.Phi.Comment))
+		}
+		if s2.Down {
+			st2 = st2.Neg()
+		}
+		secVals[s2.Phi] = i0.Add(tIter.Mul(st2))
+		secSteps[s2.Phi] = st2
+	}
+	accInit := map[*ssa.Phi]Val{}
+	for _, a := range accs {
+		accInit[a.phi] = fr.env[a.phi]
+	}
+
 	before := map[*Stream]*Form{}
 	for s, p := range st.pos {
 		before[s] = p
@@ -493,11 +696,20 @@ func (e *Engine) summariseLoop(st *State, fr *frame, b *ssa.BasicBlock, ifi *ssa
 	}
 	nEv := len(st.events)
 	var back *Outcome
+	var backFr *frame
 	var exits []Outcome
 	runBody := func(startPos map[*Stream]*Form) ([]Outcome, bool) {
 		stB := st.clone()
 		for s, p := range startPos {
 			stB.pos[s] = p
+		}
+		// facts about the generic iteration: first <= k < limit (or mirrored)
+		if unitStep {
+			if up {
+				stB.conds = append(stB.conds, &BoolVal{Op: ">=", A: k, B: first}, &BoolVal{Op: iv.Op.String(), A: k, B: limit})
+			} else {
+				stB.conds = append(stB.conds, &BoolVal{Op: "<=", A: k, B: first}, &BoolVal{Op: iv.Op.String(), A: k, B: limit})
+			}
 		}
 		frB := fr.clone()
 		if iv.PreInc {
@@ -505,6 +717,12 @@ func (e *Engine) summariseLoop(st *State, fr *frame, b *ssa.BasicBlock, ifi *ssa
 			frB.env[iv.Next] = k
 		} else {
 			frB.env[iv.Phi] = k
+		}
+		for ph, v := range secVals {
+			frB.env[ph] = v
+		}
+		for _, a := range accs {
+			frB.env[a.phi] = &SliceVal{Base: &Opaque{Key: fmt.Sprintf("acc(%s)@%s", a.phi.Comment, kName)}, Lo: formInt(0), Len: e.A.Var("acclen@"+kName, types.Typ[types.Int])}
 		}
 		frB.stopAt = b
 		frB.forks[b] = 0
@@ -517,7 +735,8 @@ func (e *Engine) summariseLoop(st *State, fr *frame, b *ssa.BasicBlock, ifi *ssa
 					return fail("the loop body reaches the back edge on more than one path")
 				}
 				back = &outs[i]
-			case "return", "panic":
+				backFr = outs[i].Fr
+			case "return", "panic", "cutoff":
 				exits = append(exits, outs[i])
 			default:
 				return fail("the loop body is not extractable: " + outs[i].Why)
@@ -531,8 +750,9 @@ func (e *Engine) summariseLoop(st *State, fr *frame, b *ssa.BasicBlock, ifi *ssa
 	if _, ok := runBody(nil); !ok {
 		return nil, false
 	}
-	// per-iteration consumption
+	// per-iteration stream consumption
 	shifted := map[*Stream]*Form{}
+	deltas := map[*Stream]*Form{}
 	for s, p := range back.St.pos {
 		b0, ok := before[s]
 		if !ok {
@@ -545,82 +765,72 @@ func (e *Engine) summariseLoop(st *State, fr *frame, b *ssa.BasicBlock, ifi *ssa
 		if !unitStep {
 			return fail("the loop consumes stream bytes but does not count in steps of 1")
 		}
-		for a := range d.Atoms() {
-			if a == func() string { n, _ := k.SingleAtom(); return n }() {
-				return fail("the number of bytes consumed per iteration depends on the iteration")
-			}
+		if d.Atoms()[kName] {
+			return fail("the number of bytes consumed per iteration depends on the iteration")
 		}
-		shifted[s] = b0.Add(k.Sub(first).Mul(d))
+		if c, isC := d.ConstInt(); isC && c < 0 {
+			return fail("the loop body moves the stream backwards")
+		}
+		deltas[s] = d
+		shifted[s] = b0.Add(tIter.Mul(d))
 	}
 	if len(shifted) > 0 {
 		if _, ok := runBody(shifted); !ok {
 			return nil, false
 		}
-		// the shifted run must consume the same amount
 		for s, start := range shifted {
 			d1 := back.St.pos[s].Sub(start)
-			d0 := start.Sub(before[s]) // = (k-first)*d
-			_ = d0
-			b0 := before[s]
-			if b0 == nil {
-				b0 = formInt(0)
-			}
-			// consumption per iteration d = (shifted start − b0)/(k − first); compare via cross-multiplication
-			if !d1.Mul(k.Sub(first)).Equal(start.Sub(b0)) {
+			if !d1.Equal(deltas[s]) {
 				return fail("the number of bytes consumed per iteration depends on the position")
 			}
-			// normalise back.St.pos to "b0 + d" so that the generic code below sees the per-iteration delta
-			back.St.pos[s] = b0.Add(d1)
 		}
 	}
-	// the iteration may only advance stream positions by constants
+	// the iteration must not modify variables that outlive it
 	for c, kBefore := range memBefore {
 		if v, ok := back.St.mem[c]; !ok || valKey(v) != kBefore {
 			return fail("the loop body modifies variable " + c.Name + " that outlives the iteration (shared between iterations / workers)")
 		}
 	}
-	var loopStores []Event
+	// secondary counters must really advance by their step (the latch value is phi ± step by construction)
+	var facts []Event
 	for _, ev := range back.St.events[nEv:] {
 		switch ev.Kind {
-		case "readfail":
+		case "readfail", "make", "append":
 		case "store":
-			// element store table[f(k)] = g(k): kept as a loop-store fact
 			ptr, _ := ev.Recv.(*Ptr)
 			if ptr == nil || ptr.SymIdx == nil {
 				return fail("the loop body stores through " + valKey(ev.Recv) + ", which is not an element indexed by the iteration")
 			}
-			loopStores = append(loopStores, Event{Kind: "loop-store", Fn: "loop-store", Recv: ptr, Args: []Val{k, first, limit, ptr.SymIdx, ev.Args[0]}, Pos: ev.Pos})
-		case "loop-store", "loop-call", "loop-invoke", "loop-summary":
-			// facts of an inner loop pass through unchanged
-			loopStores = append(loopStores, ev)
-		case "call", "invoke":
-			// calls inside the generic iteration are recorded with the iteration variable
-			loopStores = append(loopStores, Event{Kind: "loop-" + ev.Kind, Fn: ev.Fn, Recv: ev.Recv, Args: append([]Val{k, first, limit}, ev.Args...), Res: ev.Res, Pos: ev.Pos})
+			facts = append(facts, Event{Kind: "loop-store", Fn: "loop-store", Recv: ptr, Args: []Val{k, first, limit, ptr.SymIdx, ev.Args[0]}, Pos: ev.Pos})
+		case "loop-store", "loop-call", "loop-invoke", "loop-summary", "loop-append":
+			facts = append(facts, ev)
+		case "call", "invoke", "copyn", "readinto", "trace", "mapupdate":
+			facts = append(facts, Event{Kind: "loop-" + ev.Kind, Fn: ev.Fn, Recv: ev.Recv, Args: append([]Val{k, first, limit}, ev.Args...), Res: ev.Res, Pos: ev.Pos})
 		default:
 			return fail("the loop body has an effect of kind " + ev.Kind)
 		}
 	}
-	trips := limit.Sub(first)
-	for s, p := range back.St.pos {
-		b0, ok := before[s]
-		if !ok {
+	// accumulators: the value appended in the generic iteration
+	for _, a := range accs {
+		var latch Val
+		if backFr != nil {
+			latch = backFr.env[a.app]
+		}
+		facts = append(facts, Event{Kind: "loop-append", Fn: "loop-append", Recv: accInit[a.phi], Args: []Val{k, first, limit, latch}, Pos: a.app.Pos()})
+	}
+	// after the loop
+	for s, d := range deltas {
+		b0 := before[s]
+		if b0 == nil {
 			b0 = formInt(0)
-		}
-		d := p.Sub(b0)
-		if c, isC := d.ConstInt(); isC && c == 0 {
-			continue
-		}
-		if c, isC := d.ConstInt(); isC && c < 0 {
-			return fail("the loop body moves the stream backwards")
-		}
-		if !unitStep {
-			return fail("the loop consumes stream bytes but does not count in steps of 1")
 		}
 		st.pos[s] = b0.Add(trips.Mul(d))
 	}
 	st.addEvent(Event{Kind: "loop-summary", Fn: "loop", Args: []Val{first, limit, stepV, k}, Pos: e.condPos(ifi)})
-	st.events = append(st.events, loopStores...)
-	for _, ls := range loopStores {
+	for _, f := range facts {
+		st.events = append(st.events, f)
+	}
+	for _, ls := range facts {
 		if ls.Kind == "loop-store" {
 			ptr := ls.Recv.(*Ptr)
 			if ptr.Cell != nil {
@@ -631,12 +841,146 @@ func (e *Engine) summariseLoop(st *State, fr *frame, b *ssa.BasicBlock, ifi *ssa
 		}
 	}
 	if iv.PreInc {
-		fr.env[iv.Phi] = limit.Sub(formInt(1))
+		fr.env[iv.Phi] = limit.Sub(stepV)
 		fr.env[iv.Next] = limit
 	} else {
 		fr.env[iv.Phi] = limit
 	}
+	for ph, v0 := range secVals {
+		_ = v0
+		if trips != nil {
+			i0 := fr.env[ph].(*Form)
+			fr.env[ph] = i0.Add(trips.Mul(secSteps[ph]))
+		}
+	}
+	for _, a := range accs {
+		e.nextCell++
+		base := &Opaque{Key: fmt.Sprintf("appended#%d", e.nextCell), Fn: "loop-append", Args: []Val{accInit[a.phi], k}}
+		fr.env[a.phi] = &SliceVal{Base: base, Lo: formInt(0), Len: e.A.App("len", types.Typ[types.Int], base)}
+	}
 	res := e.exec(st, fr, b.Succs[1], b, 0, depth)
 	res = append(res, exits...)
 	return res, true
+}
+
+// sliceElem is element k of a slice value.
+func (e *Engine) sliceElem(st *State, sl *SliceVal, k *Form) Val {
+	idx := sl.Lo.Add(k)
+	if sl.Arr != nil {
+		if c, ok := idx.ConstInt(); ok {
+			if arr, ok := selectPath(e.cellVal(st, sl.Arr.Cell), sl.Arr.Path); ok {
+				if a, ok := arr.(*Agg); ok && c >= 0 && int(c) < len(a.Elems) {
+					return a.Elems[c]
+				}
+			}
+		}
+		return nil
+	}
+	if sl.Base != nil {
+		return e.elemOf(sl.Base, idx, types.Typ[types.Uint8])
+	}
+	return nil
+}
+
+// imageField reads a field of the image struct an image pointer value points to.
+func (e *Engine) imageField(st *State, img Val, field string, recvT types.Type) (Val, bool) {
+	pt, ok := recvT.(*types.Pointer)
+	if !ok {
+		return nil, false
+	}
+	stt, ok := pt.Elem().Underlying().(*types.Struct)
+	if !ok {
+		return nil, false
+	}
+	fi := -1
+	for i := 0; i < stt.NumFields(); i++ {
+		if stt.Field(i).Name() == field {
+			fi = i
+		}
+	}
+	if fi < 0 {
+		return nil, false
+	}
+	var cell *Cell
+	switch x := img.(type) {
+	case *Ptr:
+		cell = x.Cell
+	case *Opaque:
+		key := "deref:" + x.Key + ":" + recvT.String()
+		cell = e.opaqueMem[key]
+		if cell == nil {
+			cell = e.newCell("*"+x.Key, pt.Elem())
+			e.opaqueMem[key] = cell
+		}
+	}
+	if cell == nil {
+		return nil, false
+	}
+	a, ok := e.cellVal(st, cell).(*Agg)
+	if !ok || fi >= len(a.Elems) {
+		return nil, false
+	}
+	return a.Elems[fi], true
+}
+
+// sprintfForm normalises Sprintf with only %d / %v verbs over integers into a string form.
+func sprintfForm(format Val, args []Val) (*StrForm, bool) {
+	fs, ok := format.(*StrVal)
+	if !ok {
+		return nil, false
+	}
+	sf := &StrForm{}
+	ai := 0
+	lit := ""
+	s := fs.S
+	for i := 0; i < len(s); i++ {
+		if s[i] != '%' {
+			lit += string(s[i])
+			continue
+		}
+		if i+1 >= len(s) {
+			return nil, false
+		}
+		i++
+		switch s[i] {
+		case '%':
+			lit += "%"
+		case 'd', 'v':
+			if ai >= len(args) {
+				return nil, false
+			}
+			f, isF := args[ai].(*Form)
+			if !isF {
+				return nil, false
+			}
+			ai++
+			if lit != "" {
+				sf.Parts = append(sf.Parts, &StrVal{S: lit})
+				lit = ""
+			}
+			sf.Parts = append(sf.Parts, &DecVal{X: f})
+		default:
+			return nil, false
+		}
+	}
+	if lit != "" {
+		sf.Parts = append(sf.Parts, &StrVal{S: lit})
+	}
+	return sf, ai == len(args)
+}
+
+// pixOffsetForm is (y − Rect.Min.Y)·Stride + (x − Rect.Min.X)·bpp for the image value img of pointer type recvT.
+func (e *Engine) pixOffsetForm(st *State, img Val, recvT types.Type, bpp int64, x, y *Form) (*Form, bool) {
+	rect, ok1 := e.imageField(st, img, "Rect", recvT)
+	stride, ok2 := e.imageField(st, img, "Stride", recvT)
+	if !ok1 || !ok2 {
+		return nil, false
+	}
+	minX, ok5 := formAt(rect, 0, 0)
+	minY, ok6 := formAt(rect, 0, 1)
+	sf, ok7 := stride.(*Form)
+	if !(ok5 && ok6 && ok7) {
+		return nil, false
+	}
+	return y.Sub(minY).Mul(sf).Add(x.Sub(minX).Mul(formInt(bpp))), true
 }
